@@ -266,6 +266,7 @@ def worker(job):
     res['n_est'] = n_est
     res['n_rows'] = n_rows
     res['fails'] = {k: [(w, {kk: vv for kk, vv in d.items() if kk != 'traceback'}) for w, d in v[:5]] for k, v in tr.fails.items()}
+    res['blob_shapes'] = [(tr.cfg['blob'], n, list(sh)) for n, sh in sorted(tr.blob_shapes)]
     res['n_points'] = len(tr.pid.rows)
     res['calls'] = tr.prob.calls
     res['n_like'] = int(s.n_like)
@@ -406,7 +407,45 @@ def run_family(run: Run, prop, n_runs, forces=None, extras=None):
         cfg, dd = mism[0]
         run.violation('correspondence sampler ~ Shell2.step broken for the fields relevant to %s (no direct predicate fails): %s' % (prop, dd[:1]),
                       dict(kind='correspondence', broken='sampler.py add_bound/add_samples/run ~ Shell2.step', config=cfg, difference=dd), False)
+    if prop == 'C03':
+        blob_shape_cases(run, good)
     return results
+
+
+RAW_TAIL = {'float': [1], 'int': [1], 'vec3': [1, 3], 'vec1': [1, 1], 'two': None}
+
+
+def blob_shape_cases(run, good):
+    """shape of the blob array against the Gallina shape model (BlobShape.squeeze_keep_batch), inside Coq"""
+    from common import coq_eval
+    cases = sorted({(kind, n, tuple(sh)) for r in good for (kind, n, sh) in r.get('blob_shapes', [])})
+    rows = []
+    for kind, n, sh in cases:
+        if RAW_TAIL.get(kind) is None:
+            raw = [n]            # structured dtype: one record per point
+        else:
+            raw = [n] + RAW_TAIL[kind]
+        rows.append('(%s, %s)' % ('[' + '; '.join(map(str, raw)) + ']', '[' + '; '.join(map(str, sh)) + ']'))
+    run.cov['blob_shape_cases'] = [dict(kind=k, n_batch=n, shape=list(sh)) for k, n, sh in cases]
+    if not rows:
+        return
+    body = '''From Coq Require Import List Arith Bool. Import ListNotations.
+Require Import NV.BlobShape.
+Fixpoint leqb (a b : list nat) : bool := match a, b with [], [] => true | x :: a', y :: b' => Nat.eqb x y && leqb a' b' | _, _ => false end.
+Definition cases : list (list nat * list nat) := [%s].
+Eval vm_compute in (length cases, map fst (filter (fun ic => negb (leqb (squeeze_keep_batch (fst (snd ic))) (snd (snd ic)))) (combine (seq 0 (length cases)) cases))).
+''' % '; '.join(rows)
+    rc, out = coq_eval(body, 'cases_C03_shapes')
+    import re as _re
+    m = _re.search(r'=\s*\(\s*(\d+)\s*,\s*(\[[^\]]*\]|nil)\s*\)', out.replace('\n', ' ').replace('%nat', ''))
+    if rc != 0 or not m:
+        run.violation('in-Coq evaluation of the blob-shape cases failed: ' + out[-300:], dict(kind='correspondence', broken='cases_C03_shapes.v'), False)
+        return
+    bad = [int(x) for x in _re.findall(r'\d+', m.group(2))]
+    if bad:
+        kind, n, sh = cases[bad[0]]
+        run.violation('C03: evaluate_likelihood returned a blob array of shape %s for a batch of %d blobs of kind %s: the batch axis or the blob shape is not what the shape model gives' % (list(sh), n, kind),
+                      dict(kind='direct', blob=kind, n_batch=n, shape=list(sh)), True, key='C03:blobshape')
 
 
 def _count(rs, key):
